@@ -4,34 +4,36 @@ package curve25519
 func vCongruentModP(a, b vZ) bool { return a.Sub(b).Mod(vZc(vP)).Eq(vZi(0)) }
 
 // C18: Mul returns a reduced representation of the exact product residue for all operands in the class the
-// group law produces (64-bit layout: limbs < 2^54; 32-bit layout: limbs < 2^(bits+1))
+// group law produces (table vMulPairs: 64-bit layout limbs <= 2^54 on both operands; 32-bit layout the four
+// (first, second) operand class pairs that occur, checked call site by call site in the C09/C10/C16 harnesses)
 func vh_C18_Mul() {
+	k := vCase(0, len(vMulPairs)-1)
 	a, b := vFreshFE("a"), vFreshFE("b")
-	vAssume(vLimbsBelow(&a, vMulExtra) && vLimbsBelow(&b, vMulExtra))
+	vAssume(vScaledV(&a, vMulPairs[k][0]) && vScaledV(&b, vMulPairs[k][1]))
 	var out Bignum25519
 	Mul(&out, &a, &b)
 	vReach("Mul returned")
 	vAssert(vCongruentModP(vVal(&out), vVal(&a).Mul(vVal(&b))), "Mul: value(out) == value(a) * value(b) (mod p)")
-	vAssert(vReducedOut(&out), "Mul: output reduced")
+	vAssert(vScaled(&out, vSReduced), "Mul: output reduced")
 }
 
 func vh_C18_Square() {
 	a := vFreshFE("a")
-	vAssume(vLimbsBelow(&a, vMulExtra))
+	vAssume(vScaled(&a, vSSquareIn))
 	var out Bignum25519
 	Square(&out, &a)
 	vReach("Square returned")
 	vAssert(vCongruentModP(vVal(&out), vVal(&a).Mul(vVal(&a))), "Square: value(out) == value(a)^2 (mod p)")
-	vAssert(vReducedOut(&out), "Square: output reduced")
+	vAssert(vScaled(&out, vSReduced), "Square: output reduced")
 }
 
 // one iteration of SquareTimes from an arbitrary in-class state (inductive step for the long chains)
 func vh_C18_SquareTimes_step() {
 	a := vFreshFE("a")
-	vAssume(vLimbsBelow(&a, vMulExtra))
+	vAssume(vScaled(&a, vSSquareIn))
 	var out Bignum25519
 	SquareTimes(&out, &a, 1)
 	vReach("SquareTimes(1) returned")
 	vAssert(vCongruentModP(vVal(&out), vVal(&a).Mul(vVal(&a))), "SquareTimes(.,1): value(out) == value(a)^2 (mod p)")
-	vAssert(vReducedOut(&out), "SquareTimes: output reduced (so the next iteration is in class)")
+	vAssert(vScaled(&out, vSReduced), "SquareTimes: output reduced (so the next iteration is in class)")
 }
